@@ -109,6 +109,13 @@ def base_pool():
         return (base + cyc).to(fmt)
     ctors.update({"t_cycle3_csr": lambda: tiny_cycle(3, "csr"), "t_cycle4_csr": lambda: tiny_cycle(4, "csr"), "t_cycle3_dense": lambda: tiny_cycle(3, "dense"),
                   "t_cycle3_dia": lambda: tiny_cycle(3, "dia"), "t_cycle5_csr": lambda: tiny_cycle(5, "csr")})
+    # ill-conditioned Hermitian operators: rounding in a factorisation is amplified far above every tolerance, so the flags
+    # of what is computed from them are facts about the computed entries, not about the exact result
+    def hilbert(n, fmt):
+        q = qutip.Qobj(np.array([[1.0 / (i + j + 1) for j in range(n)] for i in range(n)], dtype=complex)).to(fmt)
+        q.isherm
+        return q
+    ctors.update({"ill_hilbert12_csr": lambda: hilbert(12, "csr"), "ill_hilbert14_csr": lambda: hilbert(14, "csr"), "ill_hilbert12_dense": lambda: hilbert(12, "dense")})
     for k, f in ctors.items():
         try:
             out[k] = f()
@@ -126,7 +133,7 @@ UNARY = {
     "mul2": lambda q: q * 2.0, "rmul_half": lambda q: 0.5 * q, "div4": lambda q: q / 4.0, "mul_m1": lambda q: q * -1.0,
     "mul_i": lambda q: q * 1j, "mul_1pi": lambda q: q * (1 + 1j), "div_i": lambda q: q / 1j,
     "expm": lambda q: q.expm(), "sqrtm": lambda q: q.sqrtm(), "logm": lambda q: q.logm(),
-    "cosm": lambda q: q.cosm(), "sinm": lambda q: q.sinm(), "inv": lambda q: q.inv(),
+    "cosm": lambda q: q.cosm(), "sinm": lambda q: q.sinm(), "inv": lambda q: q.inv(), "inv_sparse": lambda q: q.inv(sparse=True),
     "unit": lambda q: q.unit(), "unit_inplace": lambda q: q.copy().unit(inplace=True),
     "unit_max": lambda q: q.unit(norm="max"), "unit_max_inplace": lambda q: q.copy().unit(inplace=True, norm="max"),
     "unit_fro_inplace": lambda q: q.copy().unit(inplace=True, norm="fro"), "unit_one_inplace": lambda q: q.copy().unit(inplace=True, norm="one"),
